@@ -120,7 +120,28 @@ func (p *Program) ExprSlots() map[int]string {
 // HelpersGo is the Go helper file of every corpus package built from model programs.
 const HelpersGo = `package main
 
-import "github.com/a-h/templ"
+import (
+	"bytes"
+	"context"
+	"io"
+
+	"github.com/a-h/templ"
+)
+
+// Cap is a hand-written component: it captures its children into a buffer of
+// its own and writes them inside <q>…</q> (callers may post-process, cache…).
+func Cap(a A, p string) templ.Component {
+	return templ.ComponentFunc(func(ctx context.Context, w io.Writer) error {
+		children := templ.GetChildren(ctx)
+		ctx = templ.ClearChildren(ctx)
+		var b bytes.Buffer
+		if err := children.Render(ctx, &b); err != nil {
+			return err
+		}
+		_, err := io.WriteString(w, "<q>"+b.String()+"</q>")
+		return err
+	})
+}
 
 type A struct {
 	S  [4]string        ` + "`json:\"s\"`" + `
